@@ -160,6 +160,8 @@ def enc_ok(text) -> bool:
 
 def numify(v):
     """What a numeric filter reads a value as (reference for the DivisionImpossible measurement only)."""
+    if isinstance(v, bool):
+        return int(v)        # num_arg counts a boolean as 0 / 1 (fix 2158e91)
     if isinstance(v, (int, float)):
         return v
     if isinstance(v, str) and len(v) <= 4300:
